@@ -156,6 +156,38 @@ Proof.
   - by rewrite !lookup_empty.
 Qed.
 
+(* ---- the stores' own expiry loop: every gc_interval a pass with cutoff (now - peer_lifetime).  Any number of passes at
+   wall-clock times g1, g2, ... (in any order, nothing announced in between) leave exactly the memberships announced after
+   (the latest g) - lifetime: "a peer is forgotten once it has not announced for a lifetime", whatever the interval. *)
+Definition keep_after (T : Z) (o : option Z) : option Z :=
+  match o with Some t => if decide (T < t) then Some t else None | None => None end.
+Definition periodic_passes (L : Z) (gs : list Z) (sp : spec) : spec := fold_left (fun s g => sm_gc (g - L) s) gs sp.
+
+Lemma keep_after_twice T1 T2 o : keep_after T2 (keep_after T1 o) = keep_after (Z.max T1 T2) o.
+Proof. destruct o as [t|]; cbn; [|done]. repeat (case_decide; cbn); try done; lia. Qed.
+
+Theorem periodic_passes_exact (L : Z) g (gs : list Z) sp ih v6 (pk : list Z) :
+  let sp' := periodic_passes L (g :: gs) sp in
+  let latest := fold_left Z.max gs g in
+  seeders (swarm_of sp' ih v6) !! pk = keep_after (latest - L) (seeders (swarm_of sp ih v6) !! pk) ∧
+  leechers (swarm_of sp' ih v6) !! pk = keep_after (latest - L) (leechers (swarm_of sp ih v6) !! pk).
+Proof.
+  cbn zeta. unfold periodic_passes. cbn [fold_left].
+  assert (G : ∀ gs m s0,
+             (seeders (swarm_of s0 ih v6) !! pk = keep_after (m - L) (seeders (swarm_of sp ih v6) !! pk) ∧
+              leechers (swarm_of s0 ih v6) !! pk = keep_after (m - L) (leechers (swarm_of sp ih v6) !! pk)) →
+             let s1 := fold_left (fun s g => sm_gc (g - L) s) gs s0 in
+             seeders (swarm_of s1 ih v6) !! pk = keep_after (fold_left Z.max gs m - L) (seeders (swarm_of sp ih v6) !! pk) ∧
+             leechers (swarm_of s1 ih v6) !! pk = keep_after (fold_left Z.max gs m - L) (leechers (swarm_of sp ih v6) !! pk)).
+  { clear gs. induction gs as [|g' gs IH]; intros m s0 [H1 H2]; cbn [fold_left]; [done|].
+    apply IH. destruct (expiry_exact (g' - L) s0 ih v6 pk) as [E1 E2].
+    fold (keep_after (g' - L) (seeders (swarm_of s0 ih v6) !! pk)) in E1.
+    fold (keep_after (g' - L) (leechers (swarm_of s0 ih v6) !! pk)) in E2.
+    rewrite E1, E2, H1, H2, !keep_after_twice.
+    replace (Z.max (m - L) (g' - L)) with (Z.max m g' - L) by lia. done. }
+  apply G. destruct (expiry_exact (g - L) sp ih v6 pk) as [E1 E2]. by split.
+Qed.
+
 Theorem expiry_drops_empty_swarms (T : Z) sp ih v6 sw :
   sm_gc T sp !! (ih, v6) = Some sw → swarm_empty sw = false.
 Proof.
